@@ -24,7 +24,7 @@ SHRINK_KINDS = ('list',)
 ASSUMPTIONS = [
     'bundles have >= 1 octet (scapy builds no payload layer from zero octets and a bundle is never empty)',
     'without an MTU a bundle beyond the 20-bit message length limit must still leave as well-formed messages (pinned cases around 2^20)',
-    'the virtual clock is not advanced between segments (the 1 s receive timer of every segment is outside the property)',
+    'between two segments less than the 1 s receive timeout passes on the virtual clock (gap_ms 0, 300 or 900); the whole transfer may take longer',
 ]
 EXHAUSTIVE_PART = 'all arrival permutations of the segments of enumerated transfers with <= 5 segments'
 
@@ -120,7 +120,8 @@ def transfer_cases(draw):
     xfer = draw(st.sampled_from([0, 1, 255, 256, 65535, 65536, 2 ** 32 - 1]))
     arrival = draw(st.lists(st.integers(0, 255), max_size=40))
     return {'kind': 'transfer', 'mtu': mtu, 'length': length, 'seed': draw(st.integers(0, 99)), 'xfer': xfer,
-            'other': draw(st.sampled_from([None, 'number', 'channel'])), 'arrival': arrival}
+            'other': draw(st.sampled_from([None, 'number', 'channel'])), 'arrival': arrival,
+            'gap_ms': draw(st.sampled_from([0, 0, 300, 900]))}
 
 
 @st.composite
@@ -270,8 +271,17 @@ def run_transfer(case, out):
     need = [len(frames), len(other_frames)]
     wants = [data, other_data]
     announced = 0
+    # (only without a second interleaved transfer: otherwise the pause between two segments of one transfer would add up)
+    gap_ms = int(case.get('gap_ms') or 0) if not case.get('other') else 0
     for which, idx in order:
         frame = frames[idx] if which == 0 else other_frames[idx]
+        if gap_ms:
+            # the segments trickle in: less than the receive timeout (1 s, restarted by every segment according to its
+            # documentation) lies between two of them, but the whole transfer may take longer than that
+            simloop.advance_to(simloop.CLOCK.now_ms + gap_ms)
+            for _ in range(50):
+                if not rctx.iterate():
+                    break
         before = len([e for e in dbus.RECORDER.events if e['kind'] == 'signal' and e['member'] == 'recv_bundle_finished' and e['obj'] is receiver])
         with simloop.entered(rctx):
             try:
@@ -299,6 +309,16 @@ def run_transfer(case, out):
             for ev in after_ev[-new:]:
                 if ev.get('error'):
                     out.fail('signal-does-not-marshal', 'recv_bundle_finished%r: %s' % (ev['args'], ev['error']))
+    # long after everything is complete: whatever timers are left must not do any harm
+    simloop.advance_to(simloop.CLOCK.now_ms + 2500)
+    for _ in range(200):
+        if not rctx.iterate():
+            break
+    for esc in rctx.escapes:
+        out.fail('escape:%s@%s' % (esc.exc_type, esc.frame), 'exception escaped a main-loop callback of the receiver: %s: %s'
+                 % (esc.exc_type, esc.exc_msg[:100]))
+    if gap_ms:
+        out.label('gap:%d' % gap_ms)
     idx_order = [i for w, i in order if w == 0]
     out.nontrivial = len(frames) >= 3 and idx_order != sorted(idx_order)
     out.label('transfer', 'mtu:%s' % mtu, 'frames:%s' % ('1' if len(frames) == 1 else ('2' if len(frames) == 2 else '3+')),
